@@ -47,6 +47,11 @@ Acts(t) ==
  \cup (IF "fiadd" \in OPS /\ DEPTH = 1 THEN {[op |-> "fiadd", path |-> <<>>, v |-> v] : v \in Vs} ELSE {})
  \cup (IF "updcoords" \in OPS THEN {[op |-> "updcoords", path |-> q, fn |-> f] : q \in fp, f \in {"shift", "reverse", "double"}} ELSE {})
  \cup (IF "obs" \in OPS THEN {[op |-> "obs", kind |-> k] : k \in {"eq", "or", "xor", "and", "sub", "print", "count", "getabsent", "iter", "shape", "dump", "uncompress", "copy", "reroot"}} ELSE {})
+ \cup (IF "get" \in OPS THEN {[op |-> "get", path |-> q, pt |-> r, mode |-> m, sp |-> sp] :
+                                  q \in fp, r \in UNION {Pts(k) : k \in 1..DEPTH}, m \in {"alloc", "dflt"}, sp \in -1..(NC - 1)} ELSE {})
+ \cup (IF "getpos" \in OPS THEN {[op |-> o, path |-> q, c |-> c, sp |-> sp] : o \in {"getpos", "getposref"}, q \in fp, c \in Cs, sp \in -1..(NC - 1)} ELSE {})
+ \cup (IF "hwrite" \in OPS THEN {[op |-> "hwrite", h |-> j, pt |-> hist[j].pt, kind |-> k, v |-> v] :
+                                  j \in {jj \in 1..Len(hist) : hist[jj].op = "ref" /\ Len(hist[jj].pt) = DEPTH}, k \in {"assign", "add", "mul"}, v \in Vs} ELSE {})
  \cup (IF "updpayloads" \in OPS THEN {[op |-> "updpayloads", path |-> q, fn |-> f] : q \in lp, f \in {"inc", "zero", "dbl"}} ELSE {})
 
 Init == /\ tree0 \in {Fib(e) : e \in InitTrees} /\ tree = tree0 /\ prev = tree0 /\ hist = <<>> /\ exc = "ok" /\ done = FALSE
@@ -79,7 +84,9 @@ StepOK ==
         m1 == Content(tree, 0)
     IN /\ WF(tree) /\ DepthIs(tree, DEPTH)                                    \* C01: the model keeps trees well-formed
        /\ exc = "order" => tree = prev                                        \* C01: rejected => unchanged
-       /\ a.op = "obs"   => tree = prev
+       /\ a.op \in {"obs", "get", "getpos"} => tree = prev
+       /\ a.op = "hwrite" => m1 = Override(m0, a.pt, WriteVal(a.kind, MapGet(m0, a.pt), a.v))
+       /\ a.op = "getposref" => m1 = m0 /\ Stored(tree) = Stored(prev) \cup {Append(a.path, a.c)}
        /\ a.op = "ref"   => m1 = m0 /\ Stored(tree) = Stored(prev) \cup Prefixes(a.pt)          \* C03
        /\ a.op = "write" => m1 = Override(m0, a.pt, WriteVal(a.kind, MapGet(m0, a.pt), a.v))    \* C03: map semantics
                             /\ Stored(tree) = Stored(prev) \cup Prefixes(a.pt)
